@@ -1,6 +1,9 @@
 package main
 
-import "strings"
+import (
+	"fmt"
+	"strings"
+)
 
 // Frozen decision tables of the journal reader (shared by C05 and C17): the
 // complete set of branch facts under which a journal segment / record is
@@ -70,6 +73,7 @@ func (c *Ctx) journalValidity(prefix string) {
 			}
 		}
 	}
+	c.journalInvalidation(prefix)
 	c.Before(prefix+"/segment-valid-on-success", nx, p.SuccessReturn, p.Writes("litefs.JournalReader.isValid"), 1, "every success exit of Next has marked the journal valid", "rollbackJournal resizes only when IsValid()")
 	rf := "litefs.(*JournalReader).ReadFrame"
 	rr := "internal.ReadFullAt(p0.f, p0.frame, p0.offset)#1"
@@ -97,4 +101,30 @@ func (c *Ctx) journalValidity(prefix string) {
 		{first, GP("("+u32("24")+" == p0.pageSize)", true), GP("(p0.pageSize == p0.pageSize)", true)},
 		{GP("(os.FileInfo.Size(p0.fi) < (p0.offset + p0.sectorSize))", false)},
 	}, 1, "a segment is accepted only under each condition of the table (none may be dropped): page size known, header read, not zeroed, magic after the first segment, sector size valid and page size equal in the first header, at least one sector present", "")
+}
+
+// journalInvalidation: writer/reader agreement on what a finalised PERSIST journal looks like.
+func (c *Ctx) journalInvalidation(prefix string) {
+	p := c.P
+	nx := "litefs.(*JournalReader).Next"
+	{
+		// PERSIST invalidation zeroes at least as many bytes as the reader requires to be zero
+		inv := c.F("litefs.(*DB).invalidateJournal")
+		key, rule := prefix+"/persist-clears-whole-header", "K8 writer/reader agreement (proven buffer lengths)"
+		desc := "invalidateJournal(PERSIST) overwrites at least as many leading bytes with zeroes as JournalReader.Next requires to be zero to treat the journal as finalised"
+		if c.need(key, rule, desc, inv, "litefs.(*DB).invalidateJournal") {
+			var wlen, rlen int64 = -1, -1
+			for _, in := range Instrs(inv, p.Calls("os.(*File).Write", "os.(*File).WriteAt")) {
+				wlen = c.lenLB(callVals(in)[1], 0)
+			}
+			for _, in := range Instrs(c.F(nx), p.PlainCalls("litefs.isByteSliceZero")) {
+				rlen = c.lenLB(callVals(in)[0], 0)
+			}
+			if wlen < 0 || rlen < 0 || wlen < rlen {
+				c.fail(key, rule, desc, "a header whose magic is zeroed but whose remaining fields survive is still a hot journal to LiteFS's own reader: the next recovery rolls the old pages back over the new image", fmt.Sprintf("writer clears %d byte(s), reader tests %d", wlen, rlen), 1)
+			} else {
+				c.ok(key, rule, desc, 1)
+			}
+		}
+	}
 }
